@@ -227,3 +227,173 @@ example : ((transferUp demoNet 200 150 100
     = some ["a", "b"] := by decide
 
 end Specter.C05
+
+namespace Specter.C05
+open Specter.Ring
+
+/-! ### Conservation: what is handed off arrives intact, what is not handed off stays untouched -/
+
+theorem mem_insertSorted (c x : String) : ∀ l : List String, c ∈ insertSorted x l ↔ c = x ∨ c ∈ l := by
+  intro l
+  induction l with
+  | nil => simp [insertSorted]
+  | cons y ys ih =>
+    unfold insertSorted
+    split
+    · simp
+    · split
+      · rename_i h; have : x = y := by simpa using h
+        subst this; simp
+      · simp [ih]; constructor
+        · rintro (h | h | h) <;> simp [h]
+        · rintro (h | h | h) <;> simp [h]
+
+theorem mem_foldl_insertSorted (c : String) : ∀ (cs acc : List String),
+    c ∈ cs.foldl (fun a x => insertSorted x a) acc ↔ c ∈ cs ∨ c ∈ acc := by
+  intro cs
+  induction cs with
+  | nil => intro acc; simp
+  | cons x xs ih =>
+    intro acc
+    simp only [List.foldl_cons]
+    rw [ih, mem_insertSorted]
+    simp only [List.mem_cons]
+    constructor
+    · rintro (h | h | h) <;> simp [h]
+    · rintro ((h | h) | h) <;> simp [h]
+
+/-- the entry created by importing `m` into a store that has no entry for `m.key` -/
+def importedEntry (m : KEntry) : KEntry :=
+  { key := m.key, hash := m.hash, simple := m.simple,
+    children := m.children.foldl (fun cs c => insertSorted c cs) [] }
+
+theorem kvUpsert_fresh (st : List KEntry) (m : KEntry) (hfresh : ∀ e ∈ st, e.key ≠ m.key) :
+    kvUpsert st m.key m.hash
+      (fun old => { old with simple := m.simple, children := m.children.foldl (fun cs c => insertSorted c cs) old.children })
+      = st ++ [importedEntry m] := by
+  unfold kvUpsert
+  have : st.any (fun e => e.key == m.key) = false := by
+    rw [List.any_eq_false]; intro e he; simpa using hfresh e he
+  simp [this, importedEntry]
+
+theorem kvUpsert_other (st : List KEntry) (k : String) (h : Nat) (f : KEntry → KEntry) (e : KEntry)
+    (he : e ∈ st) (hk : e.key ≠ k) : e ∈ kvUpsert st k h f := by
+  unfold kvUpsert
+  split
+  · simp only [List.mem_map]
+    exact ⟨e, he, by simp [hk]⟩
+  · simp [he]
+
+theorem eq_of_key_eq (st : List KEntry) (hnd : (st.map (·.key)).Nodup) (a b : KEntry)
+    (ha : a ∈ st) (hb : b ∈ st) (hk : a.key = b.key) : a = b := by
+  induction st with
+  | nil => simp at ha
+  | cons x xs ih =>
+    simp only [List.map_cons, List.nodup_cons] at hnd
+    rcases List.mem_cons.mp ha with rfl | ha' <;> rcases List.mem_cons.mp hb with rfl | hb'
+    · rfl
+    · exact absurd (List.mem_map.mpr ⟨b, hb', hk.symm⟩) hnd.1
+    · exact absurd (List.mem_map.mpr ⟨a, ha', hk⟩) hnd.1
+    · exact ih hnd.2 ha' hb'
+
+/-- entries whose key is not imported survive an import unchanged -/
+theorem import_keeps_others (es st : List KEntry) (e : KEntry) (he : e ∈ st) (hk : ∀ m ∈ es, m.key ≠ e.key) :
+    e ∈ importEntries st es := by
+  unfold importEntries
+  induction es generalizing st with
+  | nil => simpa using he
+  | cons m ms ih =>
+    simp only [List.foldl_cons]
+    apply ih
+    · exact kvUpsert_other st m.key m.hash _ e he (fun h => hk m List.mem_cons_self h.symm)
+    · intro m' hm'; exact hk m' (List.mem_cons_of_mem _ hm')
+
+/-- **Delivery.** Importing entries with pairwise distinct keys into a store that has none of these keys
+creates, for every imported entry, an entry with the same key, hash, simple value and the same set
+of children. -/
+theorem import_delivers (es st : List KEntry)
+    (hnd : (es.map (·.key)).Nodup) (hfresh : ∀ e ∈ st, ∀ m ∈ es, e.key ≠ m.key) :
+    ∀ m ∈ es, importedEntry m ∈ importEntries st es := by
+  induction es generalizing st with
+  | nil => intro m hm; simp at hm
+  | cons x xs ih =>
+    intro m hm
+    have hx : ∀ e ∈ st, e.key ≠ x.key := fun e he => hfresh e he x List.mem_cons_self
+    have hstep : importEntries st (x :: xs) = importEntries (st ++ [importedEntry x]) xs := by
+      unfold importEntries; simp only [List.foldl_cons]; rw [kvUpsert_fresh st x hx]
+    rw [hstep]
+    simp only [List.map_cons, List.nodup_cons] at hnd
+    rcases List.mem_cons.mp hm with rfl | hm'
+    · apply import_keeps_others
+      · simp
+      · intro m' hm' hk
+        exact hnd.1 (List.mem_map.mpr ⟨m', hm', by simpa [importedEntry] using hk⟩)
+    · apply ih _ hnd.2 _ m hm'
+      intro e he m' hm''
+      rcases List.mem_append.mp he with he | he
+      · exact hfresh e he m' (List.mem_cons_of_mem _ hm'')
+      · simp at he; subst he
+        intro hk
+        exact hnd.1 (List.mem_map.mpr ⟨m', hm'', by simpa [importedEntry] using hk.symm⟩)
+
+theorem importedEntry_faithful (m : KEntry) :
+    (importedEntry m).key = m.key ∧ (importedEntry m).hash = m.hash ∧ (importedEntry m).simple = m.simple ∧
+    ∀ c, c ∈ (importedEntry m).children ↔ c ∈ m.children := by
+  refine ⟨rfl, rfl, rfl, fun c => ?_⟩
+  simp [importedEntry, mem_foldl_insertSorted]
+
+/-- **Conservation of a join hand-off.** With a fresh joiner (empty store) and a successor store whose
+keys are pairwise distinct, after a successful `transferUp`:
+(1) every data entry of `s` with hash in `(prev, j]` is present at `j` with the same key, hash, simple
+    value and children set;
+(2) every other entry of `s` is still at `s`, unchanged;
+(3) (`transferUp_source`) none of the handed-off data entries remains at `s`. -/
+theorem transferUp_conserves (net net' : Net) (s j prev : Nat) (nd ndj : Node) (hsj : s ≠ j)
+    (hg : net.get s = some nd) (hgj : net.get j = some ndj) (hempty : ndj.store = [])
+    (hnd : (nd.store.map (·.key)).Nodup)
+    (h : transferUp net s j prev nd.store = some net') :
+    (∀ e ∈ nd.store, e.isDeleted = false → between prev e.hash j true = true →
+        ∃ ndj', net'.get j = some ndj' ∧ importedEntry e ∈ ndj'.store) ∧
+    (∀ e ∈ nd.store, (e.isDeleted = true ∨ between prev e.hash j true = false) →
+        ∃ nd', net'.get s = some nd' ∧ e ∈ nd'.store) := by
+  unfold transferUp at h
+  simp only at h
+  have hmovednd : ((rangeKeys nd.store prev j).map (·.key)).Nodup := by
+    unfold rangeKeys
+    exact List.Nodup.sublist (List.Sublist.map _ List.filter_sublist) hnd
+  split at h
+  · rename_i hem
+    simp at h; subst h
+    rw [List.isEmpty_iff] at hem
+    constructor
+    · intro e he hd hb
+      have : e ∈ rangeKeys nd.store prev j := (mem_rangeKeys _ _ _ _).mpr ⟨he, hb, hd⟩
+      rw [hem] at this; simp at this
+    · intro e he _; exact ⟨nd, hg, he⟩
+  · cases hi : importAt net j (rangeKeys nd.store prev j) with
+    | none => simp [hi] at h
+    | some n2 =>
+      simp only [hi] at h; simp at h; subst h
+      obtain ⟨ndj0, hgj0, hn2⟩ := importAt_get net n2 j _ hi
+      rw [hgj] at hgj0; injection hgj0 with hgj0; subst hgj0
+      have hg2 : n2.get s = some nd := by rw [hn2, get_upd_other _ _ _ _ hsj]; exact hg
+      constructor
+      · intro e he hd hb
+        refine ⟨{ ndj with store := importEntries ndj.store (rangeKeys nd.store prev j) }, ?_, ?_⟩
+        · rw [get_upd_other _ _ _ _ (Ne.symm hsj), hn2, get_upd_same, hgj]; rfl
+        · rw [hempty]
+          exact import_delivers _ [] hmovednd (by simp) e ((mem_rangeKeys _ _ _ _).mpr ⟨he, hb, hd⟩)
+      · intro e he hcase
+        refine ⟨{ nd with store := removeKeys nd.store (rangeKeys nd.store prev j) }, by rw [get_upd_same, hg2]; rfl, ?_⟩
+        rw [mem_removeKeys]
+        refine ⟨he, ?_⟩
+        intro m hm hk
+        -- m is a moved entry with the same key as e: keys are distinct, so m = e, contradiction with e not moved
+        obtain ⟨hm1, hm2, hm3⟩ := (mem_rangeKeys _ _ _ _).mp hm
+        have : m = e := eq_of_key_eq nd.store hnd m e hm1 he hk
+        subst this
+        rcases hcase with hc | hc
+        · rw [hc] at hm3; simp at hm3
+        · rw [hc] at hm2; simp at hm2
+
+end Specter.C05
